@@ -1,7 +1,7 @@
 SPECIFICATION Spec
 CONSTANTS Sigma = {97, 98}
-          MaxLen = 3
-          Level = 1
+          MaxLen = 2
+          Level = 2
           Fam = "full"
-INVARIANTS TwoFormulations SearchIsContextMatch SearchFromMatch Laws GroupsWF ReportSound ReportRejectsNonMatch
+INVARIANTS TwoFormulations SearchIsContextMatch SearchFromMatch GroupsWF ReportSound ReportRejectsNonMatch 
 CHECK_DEADLOCK FALSE
